@@ -183,6 +183,19 @@ def blinds_strategy(draw, n, sb_amt, bb_amt):
 
 @st.composite
 def custom_game(draw, families=None):
+    """A custom street list; when two of its street definitions are equal by
+    value they may be one shared ``Street`` object (``share_streets``) - a
+    natural way to write a triple draw or a turn and river - or distinct
+    objects; the hand must be the same either way."""
+    d = draw(_custom_game(families))
+    keys = [repr(x) for x in d['streets']]
+    if len(set(keys)) < len(keys):
+        d['share_streets'] = draw(st.booleans())
+    return d
+
+
+@st.composite
+def _custom_game(draw, families=None):
     fam = draw(st.sampled_from(families or ['flop', 'stud', 'draw', 'kuhn',
                                             'flop', 'stud', 'mixed',
                                             'drawboard', 'repeat']))
